@@ -222,13 +222,14 @@ func (t *simTransport) Close() error      { t.closed = true; return t.closeErr }
 var errLost = errors.New("i/o timeout (simulated lost reply)")
 
 func (t *simTransport) Send(ctx context.Context, d []byte) ([]byte, error) {
-	// an expired CALLER context means nothing is transmitted; the per-attempt timeout is not consulted here: whether the
-	// goroutine was descheduled between creating the attempt context and sending is scheduling, not library logic,
-	// and must not decide the outcome of a scripted history (only the "silence" action waits for the attempt's deadline)
-	if t.stepCtx != nil {
-		if err := t.stepCtx.Err(); err != nil && !t.udp {
-			return nil, err
-		}
+	// the per-attempt timeout is not consulted on entry: whether the goroutine was descheduled between creating the
+	// attempt context and sending is scheduling, not library logic, and must not decide the outcome of a scripted
+	// history (only the "silence" action waits for the attempt's deadline).  When the caller's context ends just as an attempt hands its datagram over (a race no script can place), the
+	// datagram still counts as transmitted - a socket whose caller was cancelled writes it all the same - and only the
+	// reply is never waited for: every sequence number the library used up belongs to a datagram the BMC saw
+	var over error
+	if t.stepCtx != nil && !t.udp {
+		over = t.stepCtx.Err()
 	}
 	if t.n >= maxTransmissions {
 		t.runaway = true
@@ -289,6 +290,13 @@ func (t *simTransport) Send(ctx context.Context, d []byte) ([]byte, error) {
 		reply = t.b.Handle(cp)
 	}
 	genuine := reply
+	if over != nil {
+		if genuine != nil {
+			t.prev = genuine
+		}
+		t.deliv = append(t.deliv, "")
+		return nil, over
+	}
 	switch name {
 	case "lost":
 		reply = nil
